@@ -167,6 +167,20 @@ chk(
     "DESIGN.md 4 C20",
 )
 
+# additions of rounds 7 / 8 (appended to the level text of the check)
+ADDED = {
+    "C04": " X also ranges over every truncation of entries that repeat a field key, and half of the damaged documents draw their field keys from a small colliding pool.",
+    "C06": " Libraries may hold one object several times (a comment added again, a Field listed twice), instances of application-defined subclasses of the model classes and every failed-block kind; failed raws with an ambiguous line count (empty, ending in a line break, CR / FF / U+2028 ...) must be emitted verbatim while the {n} of the comment is free for them; lists handed out by the library's views are trimmed by the caller before writing.",
+    "C08": " The universe holds instances of subclasses of Entry / String; after every step the lists / dict handed out by the views are emptied and read again; the list given to Library(blocks) and list arguments of add / remove stay unchanged and are never adopted.",
+    "C10": " The reuse law is continued for two more remove / add cycles in place on the same objects.",
+    "C11": " @string keys and bare values include BibTeX macro names with '-', ':' and '.'.",
+    "C13": " The middleware sub-check includes entries that repeat a name-field key (each occurrence split on its own).",
+    "C17": " Histories: for 2-3 fields (and at random) each case is repeated on an entry that went through earlier in-place field middlewares and whose field list was then put back (sort, edit, sort); every input Field object keeps its value.",
+    "C18": " Typed libraries include hand-built blocks and fields without start line / raw text, also on the failure paths.",
+    "C19": " The Field handed to set_field (half of them without a start line) is compared with a snapshot taken before the call.",
+    "C20": " Stack arguments are handed over as list / tuple / one-shot iterator / generator / deque (annotated Iterable[Middleware]); a list the caller handed over holds the same objects afterwards; block probes also return deque / dict-values collections.",
+}
+
 ALL = ["C%02d" % i for i in range(1, 21)]
 NOT_YET = "check not built yet in this revision of /verif (see DESIGN.md section 4 for its design); not claimed"
 
@@ -185,7 +199,7 @@ def main():
                 evidence_file=f"/verif/evidence/{pid}.json",
                 replay_cmd_template=f"./check {pid} --replay {{path}}",
                 engine="pbt",
-                level_claimed=dict(category="exploration", text=c["text"], design_ref=c["ref"]),
+                level_claimed=dict(category="exploration", text=c["text"] + ADDED.get(pid, ""), design_ref=c["ref"]),
                 level_note=c["note"],
                 technique=c["technique"],
             )
@@ -209,7 +223,7 @@ def main():
             )
         ],
         checks=checks,
-        notes="History independence: for half of the cases of C10-C13, C15-C18 the middleware instance has already transformed an unrelated library (libgen.maybe_preuse). Runner: ./check <id> --tier quick|thorough ; VERIF_SEED and VERIF_TIER honoured; exit 0/1/2 as described in DESIGN.md 2.4. Size boundaries: deterministic large cases (documents of 130-4200 blocks, entries of 1100 fields, 1100 nested braces, name lists of 4200 persons, histories of 1100 operations; evidence class large-*). Known findings: /verif/known_findings.json. VERIF_REPO=<dir> points the checks at a scratch copy of the repository (used only for sensitivity runs; default /repo).",
+        notes="History independence: for part of the cases of C10-C13, C15-C18 the middleware instance has already transformed an unrelated library, a variant of the case's own library (other letter case / blanks), or - in place - the very library whose content is then restored (libgen.maybe_preuse). Runner: ./check <id> --tier quick|thorough ; VERIF_SEED and VERIF_TIER honoured; exit 0/1/2 as described in DESIGN.md 2.4. Size boundaries: deterministic large cases (documents of 130-4200 blocks, entries of 1100 fields, 1100 nested braces, name lists of 4200 persons, histories of 1100 operations; evidence class large-*). Known findings: /verif/known_findings.json. VERIF_REPO=<dir> points the checks at a scratch copy of the repository (used only for sensitivity runs; default /repo).",
         not_applicable=[dict(property_id=p, reason=NOT_YET) for p in ALL if p not in CHECKS],
     )
     path = os.path.join(HERE, "MANIFEST.json")
